@@ -119,7 +119,8 @@ def _class_members(cdef, decos):
                 layers.append(d.id)
             if st.args.kwarg is not None and st.name == st.name.upper() and not st.name.startswith("_"):
                 _fail(st, "**kwargs on magic %s" % st.name)
-            members[st.name] = {"layers": layers, "sig": _sig(st), "origin": "def", "line": st.lineno, "cls": cdef.name}
+            members[st.name] = {"layers": layers, "sig": _sig(st), "origin": "def", "line": st.lineno, "cls": cdef.name,
+                                "defname": st.name}
             continue
         if isinstance(st, ast.Assign) and len(st.targets) == 1 and isinstance(st.targets[0], ast.Name):
             tgt = st.targets[0].id
@@ -242,7 +243,7 @@ def analyse_magics(src):
                     continue
                 _fail(classes[b], "upper-case attribute %s.%s is neither callable nor a string" % (b, n))
             table[n] = {"name": n, "cls": b, "layers": list(e["layers"]), "sig": tuple(e["sig"]), "origin": e["origin"],
-                        "line": e["line"], "bound": True, "strconst": False}
+                        "line": e["line"], "bound": True, "strconst": False, "defname": e.get("defname")}
 
     # --- magic_words and the dummy resolvers
     mw = None
@@ -667,6 +668,12 @@ def analyse(src):
     except (OSError, SyntaxError) as e:
         res["expr_impl"], res["expr_impl_problems"] = {}, ["%s: %s" % (EXPR, e)]
     res["registry"] = analyse_registry(src)
+    from vt.gen import c03_static
+    res["pp"] = c03_static.analyse_pp(src)
+    try:
+        res["arg_reads"] = c03_static.analyse_arg_reads(src, res["magics"])
+    except (c03_static.Unsupported, OSError, SyntaxError) as e:
+        res["arg_reads"] = {"reads": {}, "problems": ["%s: %s" % (MAGICS, e)]}
     try:
         res["pads"] = analyse_pads(src)
     except Unsupported as e:      # reported by generate() (fail-closed); the search must still be able to enumerate the names
@@ -732,6 +739,24 @@ def render(info):
     L.append("].")
     L.append("Definition gen_expr_impl_violations : nat := %d." % len(info["expr_impl_problems"]))
     L.append("")
+    L.append("(* pp.py (vt/gen/c03_static.py analyse_pp): the regular expressions run over every page and template text by pp.preprocess,")
+    L.append("   evaluated statically from the source; each is one of the reviewed patterns and contains no unbounded repetition nested in an")
+    L.append("   unbounded repetition over overlapping character classes (catastrophic backtracking) *)")
+    for pat in info["pp"]["patterns"]:
+        L.append("(*   %s *)" % pat.replace("*", "(star)"))
+    L.append("Definition gen_pp_patterns : nat := %d." % len(info["pp"]["patterns"]))
+    L.append("Definition gen_pp_regex_violations : nat := %d." % len(info["pp"]["problems"]))
+    L.append("")
+    L.append("(* reads of lazily expanded arguments (vt/gen/c03_static.py analyse_arg_reads): ArgumentList.get(int) re-expands the node on every")
+    L.append("   read; maximal number of reads of args[i] along one control path of each magic (decorator wrappers included);")
+    L.append("   violations = (magic, i) read more often than once (or through a run-time index) beyond the reviewed allow-list *)")
+    for name in sorted(info["arg_reads"]["reads"]):
+        r = info["arg_reads"]["reads"][name]
+        if r:
+            L.append("(*   %-18s %s *)" % (name, " ".join("args[%s]x%s" % (k, v) for k, v in r.items())))
+    L.append("Definition gen_arg_read_magics : nat := %d." % len(info["arg_reads"]["reads"]))
+    L.append("Definition gen_arg_reread_violations : nat := %d." % len(info["arg_reads"]["problems"]))
+    L.append("")
     L.append("Definition dummy_names : list str := [%s]." % "; ".join(core.coq_str(n) for n in info["dummies"]))
     L.append("")
     L.append("Definition magic_registry : list regentry := [")
@@ -753,5 +778,9 @@ def generate(src):
         raise Unsupported("#expr operator implementations not pinned: " + " || ".join(info["expr_impl_problems"][:4]))
     if info["discipline"]:
         raise Unsupported("exception-propagation discipline of magic calls broken: " + " || ".join(info["discipline"][:4]))
+    if info["pp"]["problems"]:
+        raise Unsupported("preprocessor regular expressions not pinned / not backtracking-safe: " + " || ".join(info["pp"]["problems"][:3]))
+    if info["arg_reads"]["problems"]:
+        raise Unsupported("a magic reads a lazily expanded argument more than once: " + " || ".join(info["arg_reads"]["problems"][:4]))
     core.write_if_changed(os.path.join(core.COQ, "C03", "Gen_magics.v"), render(info))
     return info
